@@ -500,7 +500,8 @@ impl Source {
     pub fn vcs(&self) -> Option<crate::vcs::Vcs> {
         for (name, value) in self.0.items() {
             if name.starts_with("Vcs-") && name != "Vcs-Browser" {
-                return crate::vcs::Vcs::from_field(&name, &value).ok();
+                // from_field takes the name of the system ("Git"), not the name of the field
+                return crate::vcs::Vcs::from_field(&name["Vcs-".len()..], &value).ok();
             }
         }
         None
